@@ -75,7 +75,119 @@ def _unmodelled(name):
     return _U
 
 
-Delaunay = _unmodelled("scipy.spatial.Delaunay")
+# ----------------------------------------------------------------------------- qhull (assumed contracts, A4)
+def _qhull_error():
+    try:
+        from scipy.spatial import QhullError
+    except ImportError:  # pragma: no cover
+        from scipy.spatial.qhull import QhullError
+    return QhullError
+
+
+class HullFact:
+    """membership of a query point b in conv(P) as decided by qhull: boolean h with
+         h      =>  b = sum_i lam_i P_i, lam >= 0, sum lam = 1      (lam: fresh symbols, witness())
+         not h  =>  for ALL lam >= 0 with sum 1: sum lam_i P_i != b   (instantiated at ghost lam by the contract)"""
+
+    def __init__(self, P, b, h, lam):
+        self.P, self.b, self.h, self.lam = P, b, h, lam
+
+    def instantiate_nonmember(self, lam):
+        """add  not h => not (lam >= 0 /\ sum lam = 1 /\ sum lam_i P_i = b)  for the ghost weights lam"""
+        lam = [SymReal.lift(l) for l in lam]
+        npts, dim = self.P.shape
+        conds = [l >= 0 for l in lam] + [_sumlist(lam) == 1]
+        for j in range(dim):
+            conds.append(_sumlist([lam[i] * self.P[i, j] for i in range(npts)]) == self.b[j])
+        from .sym import sym_and
+
+        c = sym_and(conds)
+        CTX.add(z3.Implies(z3.Not(self.h), z3.Not(c.z)), "axiom")
+        return c
+
+
+def _hull_degenerate(P, what):
+    """Is the point set affinely degenerate (or too small) for qhull?  Decided by the contract's ghost hint
+    sink.hints['hull'] = ('full', [i0..id]) | ('degenerate', normal) -- the hint is CHECKED as an obligation --
+    otherwise by a free boolean (both outcomes explored)."""
+    npts, dim = P.shape
+    if npts < dim + 1:
+        return True
+    sink = CTX.sink
+    hint = sink.hints.get("hull") if sink is not None else None
+    if callable(hint):
+        hint = hint(P)
+    if hint is None:
+        return CTX.decide(CTX.fresh("qhull.degenerate", "bool"))
+    kind, wit = hint
+    if kind == "full":
+        idx = list(wit)
+        M = _np.empty((dim, dim), dtype=object)
+        for r_, i in enumerate(idx[1:]):
+            for j in range(dim):
+                M[r_, j] = P[i, j] - P[idx[0], j]
+        det = symnp._det(M)
+        sink.prove(f"callee-pre:{what}/points-affinely-independent(ghost witness)", SymReal.lift(det) != 0, kind="callee-pre")
+        return False
+    n = [SymReal.lift(v) for v in wit]
+    from .sym import sym_and, sym_or
+
+    conds = [sym_or([v != 0 for v in n])]
+    for i in range(1, npts):
+        conds.append(_sumlist([n[j] * (P[i, j] - P[0, j]) for j in range(dim)]) == 0)
+    sink.prove(f"callee-pre:{what}/points-in-a-hyperplane(ghost normal)", sym_and(conds), kind="callee-pre")
+    return True
+
+
+class Delaunay:
+    """A4: scipy.spatial.Delaunay(P): ValueError for 1-D data; QhullError iff fewer than d+1 points or affinely
+    degenerate; otherwise find_simplex(b) >= 0  <=>  b in conv(P) (closed hull)."""
+
+    def __init__(self, points, furthest_site=False, incremental=False, qhull_options=None):
+        _trust("scipy.spatial.Delaunay: find_simplex(b) >= 0 <=> b in conv(P); QhullError iff degenerate input; ValueError for 1-D data")
+        P = _base(to_symarray(_np.asarray(points) if not isinstance(points, _np.ndarray) else points))
+        if P.dtype != object:
+            P = _base(to_symarray(P.astype(float)))
+        if P.ndim != 2:
+            raise ValueError("Input points array must have 2 dimensions.")
+        if P.shape[1] < 2:
+            raise ValueError("Need at least 2-D data")
+        if _hull_degenerate(P, "Delaunay"):
+            raise _qhull_error()("QH6154 Qhull precision error: Initial simplex is flat (A4 contract: degenerate input)")
+        self.points = P.view(SymArray)
+        self.ndim = P.shape[1]
+        self.npoints = P.shape[0]
+
+    def find_simplex(self, xi, bruteforce=False, tol=None):
+        B = _base(to_symarray(_np.asarray(xi) if not isinstance(xi, _np.ndarray) else xi))
+        one = B.ndim == 1
+        B2 = B[None, :] if one else B
+        if B2.shape[-1] != self.ndim:
+            raise ValueError("wrong dimensionality in xi")
+        P = _base(self.points)
+        out = _np.empty(B2.shape[0], dtype=object)
+        sink = CTX.sink
+        for r_ in range(B2.shape[0]):
+            k = len(sink.hull_facts) if sink is not None else 0
+            h = CTX.fresh(f"hull{k}.member", "bool")
+            lam = [SymReal(CTX.fresh(f"hull{k}.lam{i}")) for i in range(P.shape[0])]
+            conds = [l >= 0 for l in lam] + [_sumlist(lam) == 1]
+            for j in range(self.ndim):
+                conds.append(_sumlist([lam[i] * P[i, j] for i in range(P.shape[0])]) == B2[r_, j])
+            from .sym import sym_and
+
+            CTX.add(z3.Implies(h, sym_and(conds).z), "axiom")
+            fact = HullFact(P, B2[r_], h, lam)
+            if sink is not None:
+                sink.hull_facts.append(fact)
+            out[r_] = SymReal(z3.If(h, z3.RealVal(0), z3.RealVal(-1)))
+        return out[0] if one else out.view(SymArray)
+
+    @property
+    def simplices(self):
+        raise UnmodelledDependency("Delaunay.simplices on symbolic points")
+
+
 ConvexHull = _unmodelled("scipy.spatial.ConvexHull")
 class interp1d:
     """A4: scipy.interpolate.interp1d(kind='linear', assume_sorted=False): the piecewise-linear interpolant
